@@ -1,5 +1,5 @@
 /-
-  Proofs.C03ExtFields — `$addFields` / `$set` with top-level names and `$replaceRoot` against the
+  Proofs.C03ExtFields — `$addFields` / `$set` (dotted names included) and `$replaceRoot` against the
   oracle of Spec/PipelineExt.lean.
 -/
 import Proofs.C03ExtGroup
@@ -10,18 +10,19 @@ open MongoModel MongoModel.Pipe MongoModel.Spec MongoModel.Spec.Pipe MongoModel.
 
 /-! ### one document -/
 
-/-- the stage on one document, top-level names: every expression is read on the input document -/
+/-- the stage on one document: every expression is read on the input document, a dotted name is
+    written as the oracle's `setNested` does -/
 theorem afDoc_eq_spec : ∀ (es : Fields) (s : AfState) (acc' : Fields),
-    (∀ kv ∈ es, PlainName kv.1 ∧ exprReasons kv.2 (.doc s.inD) = []) →
+    (∀ kv ∈ es, exprReasons kv.2 (.doc s.inD) = []) →
     specSetFields (.doc s.inD) es s.outD = some acc' →
-    ∃ c, afDoc es s = .ok ⟨s.inD, acc', c⟩
+    afDoc es s = .ok ⟨s.inD, acc'⟩
   | [], s, acc', _, h => by
     simp only [specSetFields, Option.some.injEq] at h
     subst h
-    exact ⟨s.captured, rfl⟩
+    rfl
   | (name, e) :: rest, s, acc', hD, h => by
-    obtain ⟨hn, he⟩ := hD (name, e) List.mem_cons_self
-    have hrest : ∀ kv ∈ rest, PlainName kv.1 ∧ exprReasons kv.2 (.doc s.inD) = [] :=
+    have he := hD (name, e) List.mem_cons_self
+    have hrest : ∀ kv ∈ rest, exprReasons kv.2 (.doc s.inD) = [] :=
       fun kv hkv => hD kv (List.mem_cons_of_mem _ hkv)
     simp only [specSetFields] at h
     cases hv : exprValue e (.doc s.inD) with
@@ -32,13 +33,19 @@ theorem afDoc_eq_spec : ∀ (es : Fields) (s : AfState) (acc' : Fields),
       cases r with
       | none =>
         simp only [hv] at h
-        obtain ⟨c, hc⟩ := afDoc_eq_spec rest s acc' hrest h
-        exact ⟨c, by simp only [afDoc, afStep, hev, hc]⟩
+        have hc := afDoc_eq_spec rest s acc' hrest h
+        simp only [afDoc, afStep, hev, hc]
       | some v =>
         simp only [hv] at h
-        obtain ⟨c, hc⟩ := afDoc_eq_spec rest
-          { s with outD := dset name v s.outD, captured := s.captured || hasDoc v } acc' hrest h
-        exact ⟨c, by simp only [afDoc, afStep, hev, hn.split, hc]⟩
+        split at h
+        · cases h
+        · have hc := afDoc_eq_spec rest
+            { s with outD := setNested (splitDots name) v s.outD } acc' hrest h
+          have hne := MongoModel.Proofs.C12.splitDots_ne_nil name
+          have hstep : afStep name e s =
+              .ok { s with outD := setNested (splitDots name) v s.outD } := by
+            simp only [afStep, hev, nestedSet_eq_setNested]
+          simp only [afDoc, hstep, hc]
 
 /-! ### the field-major loop of the stage is the document-major one -/
 
@@ -71,31 +78,7 @@ theorem afFields_of_afDoc : ∀ (es : Fields) (st st' : List AfState),
 
 /-! ### the stage -/
 
-theorem dhas_false_ne {k : String} : ∀ {r : Fields}, dhas k r = false → ∀ kv ∈ r, kv.1 ≠ k
-  | [], _, kv, h => by simp at h
-  | (k', v') :: r, hd, kv, h => by
-    by_cases hk : k' = k
-    · simp [dhas, dget, hk] at hd
-    · have hd' : dhas k r = false := by simpa [dhas, dget, hk] using hd
-      rcases List.mem_cons.mp h with rfl | h
-      · exact hk
-      · exact dhas_false_ne hd' kv h
-
-theorem prefixConflict_plain : ∀ (es : Fields), (∀ kv ∈ es, PlainName kv.1) →
-    nodupKeys es = true → prefixConflict (es.map (fun kv => splitDots kv.1)) = false
-  | [], _, _ => rfl
-  | (k, v) :: r, hn, hd => by
-    simp only [nodupKeys, Bool.and_eq_true, Bool.not_eq_true'] at hd
-    have ih := prefixConflict_plain r (fun kv hkv => hn kv (List.mem_cons_of_mem _ hkv)) hd.2
-    simp only [List.map_cons, prefixConflict, ih, Bool.or_false, (hn (k, v) List.mem_cons_self).split]
-    rw [List.any_eq_false]
-    intro q hq
-    obtain ⟨kv, hkv, rfl⟩ := List.mem_map.mp hq
-    rw [(hn kv (List.mem_cons_of_mem _ hkv)).split]
-    have := dhas_false_ne hd.1 kv hkv
-    simp [isPrefixOf', Ne.symm this]
-
-theorem addFields_docs (entries : Fields) (hplain : ∀ kv ∈ entries, PlainName kv.1) :
+theorem addFields_docs (entries : Fields) :
     ∀ (docs s : List Val),
     docs.flatMap (fun d => match d with
       | .doc _ => entries.flatMap (fun kv => tag "expr:" (exprReasons kv.2 d))
@@ -111,7 +94,7 @@ theorem addFields_docs (entries : Fields) (hplain : ∀ kv ∈ entries, PlainNam
   | d :: ds, s, hD, hs => by
     obtain ⟨y, r, h1, h2, rfl⟩ := mapOpt_cons_some hs
     simp only [List.flatMap_cons, List.append_eq_nil_iff] at hD
-    obtain ⟨st, st', i1, i2, i3⟩ := addFields_docs entries hplain ds r hD.2 h2
+    obtain ⟨st, st', i1, i2, i3⟩ := addFields_docs entries ds r hD.2 h2
     cases d with
     | doc fs =>
       simp only [specAddFieldsDoc] at h1
@@ -120,9 +103,9 @@ theorem addFields_docs (entries : Fields) (hplain : ∀ kv ∈ entries, PlainNam
       | some acc' =>
         simp only [hsf, Option.map_some, Option.some.injEq] at h1
         subst h1
-        obtain ⟨c, hc⟩ := afDoc_eq_spec entries ⟨fs, fs, false⟩ acc' (fun kv hkv =>
-          ⟨hplain kv hkv, (tag_nil _ _).1 ((flatMap_nil_iff' _ _).1 hD.1 kv hkv)⟩) hsf
-        exact ⟨⟨fs, fs, false⟩ :: st, ⟨fs, acc', c⟩ :: st', by simp [mapR, afInit, i1],
+        have hc := afDoc_eq_spec entries ⟨fs, fs⟩ acc' (fun kv hkv =>
+          (tag_nil _ _).1 ((flatMap_nil_iff' _ _).1 hD.1 kv hkv)) hsf
+        exact ⟨⟨fs, fs⟩ :: st, ⟨fs, acc'⟩ :: st', by simp [mapR, afInit, i1],
           List.Forall₂.cons hc i2, by simp [i3]⟩
     | _ => simp [specAddFieldsDoc] at h1
 
@@ -138,17 +121,13 @@ theorem addFields_eq_spec (opts : Val) (docs s : List Val)
     · rename_i hc
       simp only [Bool.or_eq_true, Bool.not_eq_true', not_or, Bool.not_eq_true,
         Bool.not_eq_false] at hc
-      obtain ⟨⟨hne, hpl⟩, hnd⟩ := hc
-      have hplain : ∀ kv ∈ entries, PlainName kv.1 := fun kv hkv =>
-        plainName_ok _ (List.all_eq_true.mp hpl kv hkv)
-      have hpc := prefixConflict_plain entries hplain hnd
+      obtain ⟨⟨hne, _⟩, _⟩ := hc
       simp only [addFieldsReasons] at hD
-      obtain ⟨st, st', i1, i2, i3⟩ := addFields_docs entries hplain docs s hD hs
+      obtain ⟨st, st', i1, i2, i3⟩ := addFields_docs entries docs s hD hs
       cases entries with
       | nil => simp at hne
       | cons kv rest =>
-        simp only [addFieldsStage, hpc, Bool.false_eq_true, if_false, i1,
-          afFields_of_afDoc _ st st' i2, i3]
+        simp only [addFieldsStage, i1, afFields_of_afDoc _ st st' i2, i3]
   | _ => simp [specAddFieldsStage] at hs
 
 /-! ### `$replaceRoot` -/
